@@ -120,7 +120,7 @@ def showLoad {K} [DecidableEq K] (cfg : Cfg String K) (st : St String K Rat) (nf
   joinOr ((List.range nfolds).flatMap (fun f => [Part.train, Part.test].map (fun p =>
     let res := match loadPredictions cfg st f p with
       | .error e => showErr e
-      | .ok rs => joinOr (rs.map (fun ((s, d, r) : String × String × Rec) =>
+      | .ok rs => joinOr (rs.map (fun ((s, d, r) : String × String × Rec String) =>
           s!"{s}~{d}~{showNatList r.c.idx}~{showRatList r.c.yTrue}~{showRatList r.c.yPred}")) "&"
     s!"{f}{p.str}={res}"))) "|"
 
